@@ -13,13 +13,14 @@ Inductive value :=
 | VReader (r : reader_data)
 | VWriter (w : writer_data)
 | VTopic (t : topic_data)
-| VPmd (p : pmd).
+| VPmd (p : pmd)
+| VKey (k : key_kind) (g : guid).
 
-Inductive kind := KQos | KSpdp | KReader | KWriter | KTopic | KPmd.
+Inductive kind := KQos | KSpdp | KReader | KWriter | KTopic | KPmd | KKey (k : key_kind).
 Definition kind_of (v : value) : kind :=
   match v with
   | VQos _ => KQos | VSpdp _ => KSpdp | VReader _ => KReader | VWriter _ => KWriter
-  | VTopic _ => KTopic | VPmd _ => KPmd
+  | VTopic _ => KTopic | VPmd _ => KPmd | VKey k _ => KKey k
   end.
 
 (* CVal: serialise v (to_pl_cdr_bytes / to_parameter_list + serialize_to_bytes), deserialise the
@@ -46,6 +47,7 @@ Definition to_params (e : endian) (v : value) : list param :=
   | VWriter w => writer_to_params e w
   | VTopic t => topic_to_params e t
   | VPmd _ => []
+  | VKey k g => key_to_params k g
   end.
 (* ParticipantMessageData is plain CDR: no parameter list, nothing can be inserted *)
 Definition encode (e : endian) (v : value) (ins : list (nat * param)) : list Z :=
@@ -61,6 +63,7 @@ Definition decode (e : endian) (k : kind) (bs : list Z) : outcome value :=
   | KWriter => omap VWriter (decode_writer e bs)
   | KTopic => omap VTopic (decode_topic e bs)
   | KPmd => omap VPmd (decode_pmd e bs)
+  | KKey k => omap (VKey k) (decode_key e k bs)
   end.
 
 Definition run (c : case) : obs :=
@@ -109,7 +112,8 @@ Proof.
   decide equality;
     first [apply Z.eq_dec | apply bytes_eq_dec | apply pair_eq_dec | apply Bool.bool_dec
           | apply (list_eq_dec locator_eq_dec) | apply (option_eq_dec duration_eq_dec)
-          | apply (option_eq_dec Z.eq_dec) | apply (option_eq_dec bytes_eq_dec)].
+          | apply (option_eq_dec Z.eq_dec) | apply (option_eq_dec bytes_eq_dec)
+          | apply (option_eq_dec pair_eq_dec)].
 Defined.
 Definition content_filter_eq_dec (a b : content_filter) : {a = b} + {a <> b}.
 Proof. decide equality; first [apply bytes_eq_dec | apply (list_eq_dec bytes_eq_dec)]. Defined.
@@ -117,23 +121,27 @@ Definition reader_data_eq_dec (a b : reader_data) : {a = b} + {a <> b}.
 Proof.
   decide equality;
     first [apply bytes_eq_dec | apply Bool.bool_dec | apply (list_eq_dec locator_eq_dec)
-          | apply (option_eq_dec bytes_eq_dec) | apply qos_eq_dec | apply (option_eq_dec content_filter_eq_dec)].
+          | apply (option_eq_dec bytes_eq_dec) | apply qos_eq_dec | apply (option_eq_dec content_filter_eq_dec)
+          | apply (option_eq_dec pair_eq_dec)].
 Defined.
 Definition writer_data_eq_dec (a b : writer_data) : {a = b} + {a <> b}.
 Proof.
   decide equality;
     first [apply bytes_eq_dec | apply (list_eq_dec locator_eq_dec) | apply (option_eq_dec Z.eq_dec)
           | apply (option_eq_dec bytes_eq_dec) | apply qos_eq_dec
-          | apply (option_eq_dec (list_eq_dec bytes_eq_dec))].
+          | apply (option_eq_dec (list_eq_dec bytes_eq_dec)) | apply (option_eq_dec pair_eq_dec)].
 Defined.
 Definition topic_data_eq_dec (a b : topic_data) : {a = b} + {a <> b}.
 Proof. decide equality; first [apply bytes_eq_dec | apply (option_eq_dec bytes_eq_dec) | apply qos_eq_dec]. Defined.
 Definition pmd_eq_dec (a b : pmd) : {a = b} + {a <> b}.
 Proof. decide equality; apply bytes_eq_dec. Defined.
+Definition key_kind_eq_dec (a b : key_kind) : {a = b} + {a <> b}.
+Proof. decide equality. Defined.
 Definition value_eq_dec (a b : value) : {a = b} + {a <> b}.
 Proof.
   decide equality; first [apply qos_eq_dec | apply spdp_eq_dec | apply reader_data_eq_dec
-                         | apply writer_data_eq_dec | apply topic_data_eq_dec | apply pmd_eq_dec].
+                         | apply writer_data_eq_dec | apply topic_data_eq_dec | apply pmd_eq_dec
+                         | apply bytes_eq_dec | apply key_kind_eq_dec].
 Defined.
 Definition outcome_eq_dec {A} (d : forall a b : A, {a = b} + {a <> b}) (a b : outcome A) : {a = b} + {a <> b}.
 Proof. decide equality. Defined.
@@ -171,6 +179,8 @@ Definition locator_okb (l : locator) : bool :=
       u32_okb port && (len addr =? 16)
   end.
 Definition pstring_okb (s : list Z) : bool := utf8_valid s && (len s <=? 65527).
+Definition secinfo_okb (allowed : Z) (s : secinfo) : bool :=
+  u32_okb (fst s) && (Z.land (fst s) allowed =? fst s) && u32_okb (snd s).
 Definition spdp_okb (v : spdp) : bool :=
   (len (sp_participant_guid v) =? 16) &&
   forallb locator_okb (sp_metatraffic_unicast_locators v) &&
@@ -181,7 +191,8 @@ Definition spdp_okb (v : spdp) : bool :=
   oallb duration_okb (sp_lease_duration v) &&
   i32_okb (sp_manual_liveliness_count v) &&
   oallb u32_okb (sp_builtin_endpoint_qos v) &&
-  oallb pstring_okb (sp_entity_name v).
+  oallb pstring_okb (sp_entity_name v) &&
+  oallb (secinfo_okb PARTICIPANT_SEC_BITS) (sp_security_info v).
 
 Definition is_none {A} (o : option A) : bool := match o with None => true | Some _ => false end.
 Definition is_nil {A} (l : list A) : bool := match l with [] => true | _ => false end.
@@ -195,7 +206,7 @@ Definition reader_okb (v : reader_data) : bool :=
   forallb locator_okb (rd_unicast v) && forallb locator_okb (rd_multicast v) &&
   oallb guid_okb (rd_participant_key v) && pstring_okb (rd_topic_name v) && pstring_okb (rd_type_name v) &&
   qos_okb (rd_qos v) && is_none (q_history (rd_qos v)) && is_none (q_resource_limits (rd_qos v)) &&
-  oallb cfp_okb (rd_content_filter v).
+  oallb cfp_okb (rd_content_filter v) && oallb (secinfo_okb ENDPOINT_SEC_BITS) (rd_security_info v).
 Definition topic_okb (v : topic_data) : bool :=
   oallb guid_okb (td_key v) && pstring_okb (td_name v) && pstring_okb (td_type_name v) &&
   qos_okb (td_qos v) && is_none (q_time_based_filter (td_qos v)).
@@ -210,24 +221,26 @@ Definition writer_okb (v : writer_data) : bool :=
   oallb guid_okb (wd_participant_key v) && pstring_okb (wd_topic_name v) && pstring_okb (wd_type_name v) &&
   qos_okb (wd_qos v) && is_none (q_history (wd_qos v)) && is_none (q_resource_limits (wd_qos v)) &&
   oallb pstring_okb (wd_service_instance_name v) && oallb guid_okb (wd_related_datareader_key v) &&
-  oallb aliases_okb (wd_topic_aliases v).
+  oallb aliases_okb (wd_topic_aliases v) && oallb (secinfo_okb ENDPOINT_SEC_BITS) (wd_security_info v).
 
 Definition value_okb (v : value) : bool :=
   match v with
   | VQos q => qos_okb q | VSpdp s => spdp_okb s | VReader r => reader_okb r
   | VWriter w => writer_okb w | VTopic t => topic_okb t | VPmd p => pmd_okb p
+  | VKey _ g => guid_okb g
   end.
 Definition value_ok (v : value) : Prop :=
   match v with
   | VQos q => qos_ok q | VSpdp s => spdp_ok s | VReader r => reader_ok r
   | VWriter w => writer_ok w | VTopic t => topic_ok t | VPmd p => pmd_ok p
+  | VKey _ g => guid_ok g
   end.
 
 (* the parameter ids the deserialiser of each kind looks at *)
 Definition known_pids (k : kind) : list Z :=
   match k with
   | KQos => qos_pids | KSpdp => spdp_pids | KReader => reader_pids | KWriter => writer_pids
-  | KTopic => topic_pids | KPmd => []
+  | KTopic => topic_pids | KPmd => [] | KKey k => [key_pid k]
   end.
 
 (* a foreign parameter: id fits, is not the sentinel, is not looked at, value fits the length field *)
@@ -267,7 +280,8 @@ Definition spdp_defaults_okb (ab : Z -> bool) (v : spdp) : bool :=
   implb' (ab PID_DEFAULT_MULTICAST_LOCATOR) (is_nil (sp_default_multicast_locators v)) &&
   implb' (ab PID_PARTICIPANT_LEASE_DURATION) (is_none (sp_lease_duration v)) &&
   implb' (ab PID_BUILTIN_ENDPOINT_QOS) (is_none (sp_builtin_endpoint_qos v)) &&
-  implb' (ab PID_ENTITY_NAME) (is_none (sp_entity_name v)).
+  implb' (ab PID_ENTITY_NAME) (is_none (sp_entity_name v)) &&
+  implb' (ab PID_PARTICIPANT_SECURITY_INFO) (is_none (sp_security_info v)).
 
 Definition reader_defaults_okb (ab : Z -> bool) (v : reader_data) : bool :=
   implb' (ab PID_EXPECTS_INLINE_QOS) (negb (rd_expects_inline_qos v)) &&
@@ -275,6 +289,7 @@ Definition reader_defaults_okb (ab : Z -> bool) (v : reader_data) : bool :=
   implb' (ab PID_MULTICAST_LOCATOR) (is_nil (rd_multicast v)) &&
   implb' (ab PID_PARTICIPANT_GUID) (is_none (rd_participant_key v)) &&
   implb' (ab PID_CONTENT_FILTER_PROPERTY) (is_none (rd_content_filter v)) &&
+  implb' (ab PID_ENDPOINT_SECURITY_INFO) (is_none (rd_security_info v)) &&
   qos_defaults_okb ab (rd_qos v).
 Definition writer_defaults_okb (ab : Z -> bool) (v : writer_data) : bool :=
   implb' (ab PID_UNICAST_LOCATOR) (is_nil (wd_unicast v)) &&
@@ -284,6 +299,7 @@ Definition writer_defaults_okb (ab : Z -> bool) (v : writer_data) : bool :=
   implb' (ab PID_SERVICE_INSTANCE_NAME) (is_none (wd_service_instance_name v)) &&
   implb' (ab PID_RELATED_ENTITY_GUID) (is_none (wd_related_datareader_key v)) &&
   implb' (ab PID_TOPIC_ALIASES) (is_none (wd_topic_aliases v)) &&
+  implb' (ab PID_ENDPOINT_SECURITY_INFO) (is_none (wd_security_info v)) &&
   qos_defaults_okb ab (wd_qos v).
 Definition topic_defaults_okb (ab : Z -> bool) (v : topic_data) : bool :=
   implb' (ab PID_ENDPOINT_GUID) (is_none (td_key v)) && qos_defaults_okb ab (td_qos v).
@@ -296,6 +312,7 @@ Definition defaults_okb (ab : Z -> bool) (v : value) : bool :=
   | VWriter w => writer_defaults_okb ab w
   | VTopic t => topic_defaults_okb ab t
   | VPmd _ => true
+  | VKey _ _ => true
   end.
 
 (* The property oracle, on observables only.
